@@ -413,6 +413,11 @@ def run(ctx):
     # what the encoders build is what goes out: write() hands the encoding selected by the packet type to the transport
     from ._pipeline import write_reaches_wire
     write_reaches_wire(ctx, "C05.g")
+    # ---- C05.t4 "every encrypted response produced by that implementation is decoded to exactly the payload sent" needs the response to reach the
+    # decoder at all: whole, once, whatever arrived before it on the connection (a watermark left behind by an earlier split packet keeps a
+    # later, shorter response in the buffer).  The reassembly premises of C04 are re-run here, not assumed.
+    from . import c04
+    ctx.import_rules(c04, "t4")
     ctx.require_min("codecs", 2)
     ctx.require_min("residues", 16)
     ctx.require_min("comparisons", 1)
